@@ -126,6 +126,7 @@ class Recorder:
         # left behind in the library (process-wide state) is replayed as that sequence
         self.history = collections.deque(maxlen=400)
         self.first = None
+        self.prelude = os.environ.get("VERIF_NO_PRELUDE") != "1"
 
     def _failed(self, v: Violation, case):
         if v.case is None:
@@ -146,6 +147,11 @@ class Recorder:
             return
         stats.evaluations += 1
         stats.in_run = True
+        n = stats.evaluations
+        if self.prelude and n >= 4 and (n % 64 == 0 or n & (n - 1) == 0):  # cases 4, 8, 16, 32, 64, 128, 192, ...
+            from .failures import provoke
+
+            provoke()  # documented failures right before a valid case (see failures.py); also run before every replay
         try:
             execute(case, stats)
         except Discard as d:
@@ -215,6 +221,30 @@ def _hyp_settings(n, steps=None, shrink=True):
     return settings(**kw)
 
 
+def _rotating(strategy):
+    """Hypothesis runs a large share of its examples as 'an earlier prefix + the simplest possible tail' (measured here:
+    about 40 % of all examples), so whatever a fixed_dictionaries strategy draws last is the simplest value in almost
+    half of the cases.  Drawing the fields in a rotated order (the rotation is drawn first and shrinks to 0) spreads
+    that effect evenly over all fields instead of starving the last ones."""
+    from hypothesis import strategies as st
+
+    inner = getattr(strategy, "wrapped_strategy", strategy)
+    mapping = getattr(inner, "mapping", None)
+    if not isinstance(mapping, dict) or len(mapping) < 3 or os.environ.get("VERIF_NO_ROTATE") == "1":
+        return strategy
+    keys = list(mapping)
+
+    @st.composite
+    def rotated(draw):
+        r = draw(st.integers(0, len(keys) - 1))
+        got = {}
+        for k in keys[r:] + keys[:r]:
+            got[k] = draw(mapping[k])
+        return {k: got[k] for k in keys}
+
+    return rotated()
+
+
 def _worker(task):
     modname, subname, shard, nshards, tier, seed, known_keys = task
     t0 = time.time()
@@ -242,7 +272,7 @@ def _worker(task):
 
             @hypothesis.seed(hseed)
             @_hyp_settings(n)
-            @given(sub.strategy())
+            @given(_rotating(sub.strategy()))
             def test(case):
                 rec.run(sub.execute, case, stats)
 
@@ -566,6 +596,10 @@ def run_property(prop: str, tier: str, seed: int, only=None, nproc=NPROC) -> int
 def run_replay(prop: str, path: str) -> int:
     mod = importlib.import_module(f"harness.props.{prop.lower()}")
     body, case = load_replay(path)
+    if os.environ.get("VERIF_NO_PRELUDE") != "1":
+        from .failures import provoke
+
+        provoke()
     for prev in body.get("sequence") or []:
         try:  # earlier cases of the run that found the violation: executed for their effect on the library only
             replay_case(mod, prev["sub"], jsonx.dec(prev["case"]))
